@@ -90,12 +90,12 @@ partial def txF (nm : Names) : Fac → String
   | .var n => nm.ids.getD n "?"
   | .call f args => nm.ids.getD f "?" ++ "(" ++ ", ".intercalate (args.map (txE nm)) ++ ")"
   | .mat rows => "[" ++ "; ".intercalate (rows.map (fun r => " ".intercalate (r.map (txE nm)))) ++ "]"
-  | .tup es => "(" ++ ",".intercalate (es.map (txE nm)) ++ ")"
+  | .tup es => "(" ++ ", ".intercalate (es.map (txE nm)) ++ ")"
   | .set es => "{" ++ ", ".intercalate (es.map (txE nm)) ++ "}"
-  | .slice x subs => nm.ids.getD x "?" ++ "[" ++ ",".intercalate (subs.map (txS nm)) ++ "]"
+  | .slice x subs => nm.ids.getD x "?" ++ "[" ++ ", ".intercalate (subs.map (txS nm)) ++ "]"
   | .paren t => "(" ++ txT nm t ++ ")"
   | .neg f => "-" ++ txF nm f
-  | .not f => "¬" ++ txF nm f
+  | .not f => "!" ++ txF nm f
   | .tr f => txF nm f ++ "'"
 partial def txT (nm : Names) : Tree Fac → String
   | .leaf f => txF nm f
@@ -110,7 +110,7 @@ partial def txS (nm : Names) : Syntax.Sub Fac → String
 end
 
 def txTarget (nm : Names) (x : Nat) (subs : List (Syntax.Sub Fac)) : String :=
-  nm.ids.getD x "?" ++ (if subs.isEmpty then "" else "[" ++ ",".intercalate (subs.map (txS nm)) ++ "]")
+  nm.ids.getD x "?" ++ (if subs.isEmpty then "" else "[" ++ ", ".intercalate (subs.map (txS nm)) ++ "]")
 
 def txStmt (nm : Names) : Stmt → String
   | .define mu x k e => (if mu then "~" else "") ++ nm.ids.getD x "?" ++ (match k with | some k => "<" ++ nm.kinds.getD k "?" ++ ">" | none => "") ++ " := " ++ txE nm e
